@@ -39,6 +39,7 @@ ErrKey == "err:MissingAutomorphismKey"
 ErrMul == "err:MultiplicationPrecisionUnderflow"
 ErrAlign == "err:PlaintextAlignmentImpossible"
 ErrLimb == "err:LimbReallocationShrinksBelowMetadata"
+ErrBase == "err:PlaintextBase2KMismatch"
 
 Ok(r) == [status |-> "ok", reg |-> r]
 Err(kind, d) == [status |-> kind, reg |-> [d EXCEPT !.st = "bad"]]
@@ -70,6 +71,14 @@ AddPtvOut(d, a, p, into) ==
   IN IF off > a.lb THEN Err(ErrCap, d)
      ELSE IF lb1 + p.ld < p.pk THEN Err(ErrAlign, d)
      ELSE Ok(With(d, a.ld, lb1, Max2(a.mag, p.mag) + 1, Max2(a.el, p.el) + 1))
+\* a vector plaintext already in limb form (znx) carries its own radix pb: its stored width is rounded with pb, and adding it
+\* to a ciphertext of another radix is refused (after the capacity check, before the alignment check)
+PtZ(s) == [ld |-> s.pld, pk |-> DivCeil2(s.pld + s.pplb, s.pb) * s.pb, mag |-> s.pmag, el |-> S0 - s.pld]
+AddPtzOut(d, a, s, into) ==
+  LET off == IF into THEN OffU(d, a) ELSE 0 IN
+  IF off > a.lb THEN Err(ErrCap, d)
+  ELSE IF s.pb # B THEN Err(ErrBase, d)
+  ELSE AddPtvOut(d, a, PtZ(s), into)
 AddPtcOut(d, a, p, into) ==
   LET off == IF into THEN OffU(d, a) ELSE 0
   IN IF off > a.lb THEN Err(ErrCap, d) ELSE Ok(With(d, a.ld, a.lb - off, Max2(a.mag, p.mag) + 1, Max2(a.el, -p.ld) + 1))
@@ -121,6 +130,9 @@ Outcome(regs, s) ==
          IN MulOut(d, x, y)
     [] s.op \in {"add_ptv_into", "sub_ptv_into"} -> AddPtvOut(d, a, Pt(s), TRUE)
     [] s.op \in {"add_ptv_assign", "sub_ptv_assign"} -> AddPtvOut(d, d, Pt(s), FALSE)
+    [] s.op \in {"add_ptz_into", "sub_ptz_into"} -> AddPtzOut(d, a, s, TRUE)
+    [] s.op \in {"add_ptz_assign", "sub_ptz_assign"} -> AddPtzOut(d, d, s, FALSE)
+    [] s.op = "mul_ptz_into" -> MulPtOut(d, a, PtZ(s))
     [] s.op \in {"add_ptc_into", "sub_ptc_into"} -> AddPtcOut(d, a, Pt(s), TRUE)
     [] s.op \in {"add_ptc_assign", "sub_ptc_assign"} -> AddPtcOut(d, d, Pt(s), FALSE)
     [] s.op \in {"mul_ptv_into", "mul_ptc_into"} -> MulPtOut(d, a, Pt(s))
